@@ -209,7 +209,11 @@ def verify_delegation(
     # delegation_name.
     checkformat_signable(untrusted_delegated_metadata)
     try:
-        checkformat_delegating_metadata(untrusted_delegated_metadata)
+        # Decide this on the signed portion alone: the signature map is not
+        # signed and must not influence whether the type check is performed.
+        checkformat_delegating_metadata(
+            {"signatures": {}, "signed": untrusted_delegated_metadata["signed"]}
+        )
     except (ValueError, TypeError):
         # If we can't verify that we're verifying more delegating metadata
         # (e.g. we're using root to verify key_mgr), then we don't need to
